@@ -140,21 +140,20 @@ func sum(xs []uint64) (s uint64) {
 
 // run executes code under config c on a fresh StateDB of world w. instrumented selects the observed run
 // (probe StateDB + tracer) or the plain production path.
-func run(w *world, ref *state.StateDB, code []byte, c config, instrumented bool) *result {
-	r := &result{}
+func run(w *world, ref *state.StateDB, preRoot common.Hash, code []byte, c config, instrumented bool) *result {
+	r := &result{preRoot: preRoot}
 	var st *state.StateDB
 	if c.entry == entCreate {
 		st = w.open(nil)
 	} else {
 		st = w.open(code)
 	}
-	r.preRoot = st.IntermediateRoot(false)
 
 	var sdb types.StateDB = st
 	var p *probe
 	var tr evm.Tracer
 	if instrumented {
-		p = newProbe(st, ref, 3*c.gas+2000)
+		p = newProbe(st, ref, stepBudget(c.gas))
 		sdb, tr = p, p
 	}
 	vm := newEVM(sdb, c, tr)
@@ -211,6 +210,20 @@ func run(w *world, ref *state.StateDB, code []byte, c config, instrumented bool)
 	}
 	r.root = st.IntermediateRoot(false)
 	return r
+}
+
+// stepBudget: every interpreter step costs at least 1 gas, except the halting instructions (one per frame,
+// and a frame costs its caller >= 700 gas) and TRANSFERTOKEN of amount 0 (whose three operands cost >= 6 gas
+// to produce). gas + gas/256 + 2000 is therefore never reached by a metered execution. For the huge gas
+// values of the depth layer the budget is clamped (see stepCap); reaching the clamp is reported under a
+// different key.
+const stepCap = 400000000
+
+func stepBudget(gas uint64) uint64 {
+	if gas > stepCap {
+		return stepCap
+	}
+	return gas + gas/256 + 2000
 }
 
 func catch(f func()) (bool, string) {
@@ -287,7 +300,7 @@ func opClass(code []byte) string {
 
 // evaluate runs the program twice from equal pre-states (observed and plain) and applies every oracle.
 // It returns the findings, the outcome class of the case (for non-vacuity statistics) and the observed run.
-func evaluate(w *world, ref *state.StateDB, code []byte, c config) ([]finding, string, *result) {
+func evaluate(w *world, ref *state.StateDB, preRoot common.Hash, code []byte, c config) ([]finding, string, *result, int) {
 	var fs []finding
 	add := func(key, format string, a ...interface{}) {
 		for _, f := range fs {
@@ -297,27 +310,31 @@ func evaluate(w *world, ref *state.StateDB, code []byte, c config) ([]finding, s
 		}
 		fs = append(fs, finding{key, fmt.Sprintf(format, a...)})
 	}
-	a := run(w, ref, code, c, true)
+	a := run(w, ref, preRoot, code, c, true)
 	if a.panicked {
 		add("panic:"+panicClass(a.panicVal)+":"+opClass(code), "interpreter panicked: %s", a.panicVal)
-		return fs, "panic", a
+		return fs, "panic", a, 1
 	}
 	if a.exceeded {
-		add("unmetered-execution:steps-exceed-gas", "executed more than %d interpreter steps (3*gas+2000) with gas=%d: work is not bounded by the gas supplied", 3*c.gas+2000, c.gas)
-		return fs, "unmetered", a
+		if c.gas > stepCap {
+			add("no-termination-within-step-cap", "executed more than %d interpreter steps (gas=%d)", uint64(stepCap), c.gas)
+		} else {
+			add("unmetered-execution:steps-exceed-gas", "executed more than %d interpreter steps (gas + gas/256 + 2000) with gas=%d: the work done is not bounded by the gas supplied", stepBudget(c.gas), c.gas)
+		}
+		return fs, "unmetered", a, 1
 	}
 	if a.canceled {
 		add("no-termination-within-watchdog", "did not return within %v for gas=%d", watchdogLimit, c.gas)
-		return fs, "timeout", a
+		return fs, "timeout", a, 1
 	}
-	b := run(w, ref, code, c, false)
+	b := run(w, ref, preRoot, code, c, false)
 	if b.panicked {
 		add("panic:"+panicClass(b.panicVal)+":"+opClass(code), "interpreter panicked (plain run only): %s", b.panicVal)
-		return fs, "panic", a
+		return fs, "panic", a, 2
 	}
 	if b.canceled {
 		add("no-termination-within-watchdog", "plain run did not return within %v for gas=%d", watchdogLimit, c.gas)
-		return fs, "timeout", a
+		return fs, "timeout", a, 2
 	}
 	for _, v := range a.viols {
 		add(v[0], "%s", v[1])
@@ -325,8 +342,6 @@ func evaluate(w *world, ref *state.StateDB, code []byte, c config) ([]finding, s
 
 	// determinism: two runs from equal pre-states
 	switch {
-	case a.preRoot != b.preRoot:
-		vk.Fatalf("pre-states differ: %x vs %x", a.preRoot, b.preRoot)
 	case !bytes.Equal(a.ret, b.ret):
 		add("nondeterministic:return-data", "two runs returned %x and %x", a.ret, b.ret)
 	case a.left != b.left || a.bcg != b.bcg:
@@ -404,7 +419,7 @@ func evaluate(w *world, ref *state.StateDB, code []byte, c config) ([]finding, s
 	} else if a.root != a.preRoot {
 		cls = "ok+state-change"
 	}
-	return fs, cls, a
+	return fs, cls, a, 2
 }
 
 func sortStrings(l []string) {
